@@ -219,6 +219,7 @@ let memo_load (f : n -> n -> block outcome) : n -> n -> block outcome =
     | None -> let r = f ord off in Hashtbl.replace tbl k r; r
 
 (* full scan of a file through the model cursor *)
+let model_scan_guard = ref 3000000
 let model_scan (dec : n -> n list -> n list outcome) (file : n list) (m : meta) (backward : bool) : string =
   let load = memo_load (load_block dec file m.m_codec) in
   let step st o = cstep load m.m_root m.m_levels st o in
@@ -229,7 +230,7 @@ let model_scan (dec : n -> n list -> n list outcome) (file : n list) (m : meta) 
     | Done (_, None) -> entries_hash (List.rev acc)
     | Panic -> "panic -"
     | Fail e -> "err " ^ err_name e in
-  go cs_fresh [] 3000000
+  go cs_fresh [] !model_scan_guard
 
 (* ---------- writer cases: C01 / C09 / C15 / C18 ---------- *)
 let handle_file c =
@@ -238,6 +239,9 @@ let handle_file c =
   let es = parse_entries c in
   let zt = ztab_of c in
   let impl = get c "impl" in
+  (* a scan of a file written from these inserts yields at most that many entries: beyond a few times that, the
+     model reader is looping on a malformed file (reported as "runaway") *)
+  model_scan_guard := 4 * (List.length es + 16);
   let model = w_run (compress_of zt) cfg es in
   let model_kind = match model with
     | WFile (_, _, _) -> "file" | WPanicInsert i -> "panic_insert " ^ string_of_n i
@@ -1101,7 +1105,9 @@ let rec dispatch c =
   end else dispatch0 c
 and dispatch0 c =
   incr n_seen;
-  if (!n_seen mod !n_shards) <> !shard then () else begin
+  if (!n_seen mod !n_shards) <> !shard then ()
+  else if !n_specfail >= 150 then ()   (* the verdict is settled: the property fails on 150 inputs of this shard already *)
+  else begin
   incr n_cases;
   dispatch1 c end
 and dispatch1 c =
